@@ -39,7 +39,8 @@ m("C04", "property-rename-checks-sections", "odml/property.py",
 m("C04", "new-id-unchecked", "odml/section.py",
   "        if oid is not None:\n            self._id = str(uuid.UUID(oid))\n        else:\n            self._id = str(uuid.uuid4())\n\n    @property\n    def name(self):",
   "        if oid is not None:\n            self._id = str(oid)\n        else:\n            self._id = str(uuid.uuid4())\n\n    @property\n    def name(self):")
-m("C04", "extend-ignores-new-names", "odml/section.py",
+# breaks atomicity only (the second append still refuses the clash): a C06 mutant
+m("C06", "extend-ignores-new-prop-names", "odml/section.py",
   "                    (obj.name in self.properties or obj.name in new_prop_names):\n",
   "                    (obj.name in self.properties):\n")
 # ---- C05
@@ -122,12 +123,15 @@ m("C12", "merge-appends-original-not-copy", "odml/section.py",
 m("C12", "clean-drops-link", "odml/section.py",
   "        if self._link is not None:\n            # TODO get_absolute_path\n",
   "        self._link = None\n        if self._link is not None:\n            # TODO get_absolute_path\n")
-m("C12", "unmerge-removes-own-children-by-name", "odml/section.py",
-  "            if mine == obj:\n                removals.append(mine)\n", "            if mine.name == obj.name:\n                removals.append(mine)\n")
+# (unmerge-removes-own-children-by-name was equivalent under the quantifier and is gone)
+m("C12", "unmerge-keeps-copied-sections-with-subsections", "odml/section.py",
+  "            if mine == obj:\n                removals.append(mine)\n",
+  "            if mine == obj and not (isinstance(mine, BaseSection) and len(mine.sections)):\n                removals.append(mine)\n")
 # ---- C16
-m("C16", "parse-tag-catches-valueerror-only", "odml/tools/xmlparser.py",
-  "            obj = fmt.create(**arguments)\n        except Exception as exc:\n",
-  "            obj = fmt.create(**arguments)\n        except ValueError as exc:\n")
+# (parse-tag-catches-valueerror-only was equivalent: the constructors raise ValueError only)
+m("C16", "dict-section-children-appended-in-one-try", "odml/tools/dict_parser.py",
+  "            for child in sec_props + children_secs:\n                try:\n                    sec.append(child)\n                except Exception as exc:\n                    msg = \"%s not added to Section '%s'\\n  %s\" % (child, sec.name, str(exc))\n                    self.error(msg)\n",
+  "            try:\n                for child in sec_props + children_secs:\n                    sec.append(child)\n            except Exception as exc:\n                msg = \"%s not added to Section '%s'\\n  %s\" % (child, sec.name, str(exc))\n                self.error(msg)\n")
 m("C16", "dict-properties-unguarded", "odml/tools/dict_parser.py",
   "            try:\n                prop = odmlfmt.Property.create(**prop_attrs)\n                odml_props.append(prop)\n            except Exception as exc:\n                msg = \"Property not created (%s)\\n%s\" % (prop_attrs, str(exc))\n                self.error(msg)\n",
   "            prop = odmlfmt.Property.create(**prop_attrs)\n            odml_props.append(prop)\n")
